@@ -96,5 +96,10 @@ def run(ctx):
     ctx.check(ok, "library", "rand-pin", "Cargo.lock", "Cargo.lock pins rand %s (checksum %s...)" % (ents[0][0], (ents[0][1] or "")[:16]) if ok else "rand pinned",
               "Cargo.lock does not pin exactly rand 0.8.5: %s" % ents)
     ctx.extra["rand_lock"] = ents
+    # the position an instruction is processed at is decided by the shuffle alone: a submission only creates a New record, its
+    # outcome is not decided early (an order decided at submission is in effect always processed first) - C10's creation rule
+    from .c10 import creation_outcome_rules
+    creation_outcome_rules(ctx, m, rule="no-early-decision")
+
     ctx.assume("rand 0.8.5 SliceRandom::shuffle is a Fisher-Yates shuffle driven only by the passed generator (trusted library)")
     ctx.assume("shuffle<R>(&mut self, rng) is generic over the element type without bounds: the permutation cannot depend on instruction contents")
